@@ -44,9 +44,10 @@ import re, sys, os, json, difflib, hashlib
 # --------------------------------------------------------------------------- tokenizer
 
 class Tok:
-    __slots__ = ("text", "start", "end", "kind", "region", "render")
+    __slots__ = ("text", "start", "end", "kind", "region", "render", "trail")
     def __init__(self, text, start, end, kind="tok", region=None, render=None):
         self.text, self.start, self.end, self.kind, self.region, self.render = text, start, end, kind, region, render
+        self.trail = None   # end offset of an insignificant trailing comma (N5) that goes when this token goes
     def __repr__(self):
         return "Tok(%r,%s)" % (self.text, self.kind)
 
@@ -218,6 +219,7 @@ def normalise(toks, stats=None):
             i = match_close(toks, i + 2) + 1; bump("N6"); continue
         # N5 trailing comma
         if tx == "," and i + 1 < n and (toks[i+1].text in CLOSE or toks[i+1].text == "{"):
+            if out and out[-1].end <= t.start: out[-1].trail = t.end
             i += 1; continue
         out.append(t); i += 1
     return out
@@ -229,9 +231,12 @@ def norm_header(s):
     return " ".join(t.text for t in toks)
 
 class SourceFile:
-    def __init__(self, path):
+    def __init__(self, path, subst=()):
         self.path = path
         self.text = open(path, encoding="utf-8").read()
+        # N7: one instantiation of a `macro_rules!` body: the macro parameter is replaced textually (`$graph_type` -> `DiGraph`)
+        for k, v in subst:
+            self.text = self.text.replace(k, v)
         self.toks = tokenize(self.text)
         self._index()
 
@@ -301,8 +306,21 @@ class SourceFile:
                     hdr = " ".join(t.text for t in normalise(toks[j:body_open + 1])[:-1])
                     if kw == "impl": name = hdr
                 self.items.append((container, name, start, end, hdr))
-                if kw in ("impl", "trait") and hdr is not None and container == "-":
+                if kw in ("impl", "trait") and hdr is not None and (container == "-" or container.startswith("macro_rules ")):
                     self._scan(body_open + 1, end - 1, hdr)
+                if kw == "macro_rules" and body_open is not None and container == "-":
+                    # D7: the items a macro_rules! arm emits: `( pattern ) => { items }` (used with N7 substitution)
+                    k = body_open + 1
+                    while k < end - 1:
+                        if toks[k].text in OPEN:
+                            c = match_close(toks, k)
+                            if toks[k].text == "{" and k >= 2 and toks[k-1].text == ">" and toks[k-2].text == "=":
+                                self._scan(k + 1, c, name)
+                            elif toks[k].text == "{" and k >= 1 and toks[k-1].text == "=>":
+                                self._scan(k + 1, c, name)
+                            k = c + 1
+                        else:
+                            k += 1
                 i = end
             else:
                 # something else (macro invocation etc.): skip one token tree
@@ -324,8 +342,8 @@ class SourceFile:
 # --------------------------------------------------------------------------- fragment parsing
 
 class Item:
-    def __init__(self, relpath, container, name, props, occurrence):
-        self.relpath, self.container, self.name, self.props, self.occurrence = relpath, container, name, props, occurrence
+    def __init__(self, relpath, container, name, props, occurrence, subst=()):
+        self.relpath, self.container, self.name, self.props, self.occurrence, self.subst = relpath, container, name, props, occurrence, tuple(subst)
         self.exec = []        # exec tokens (Tok; for R-originals region=(rs,re,rule))
         self.span = None      # (start,end) char span of item body in fragment text
         self.rewrites = []    # (rule, orig_text)
@@ -349,11 +367,14 @@ def parse_fragment(text, fname):
             if head[0] == "item":
                 if cur is not None:
                     raise AssemblyError("%s: nested //@ item at offset %d" % (fname, t.start))
-                props, occ = None, 0
+                props, occ, subst = None, 0, []
                 for p in parts[3:]:
                     if p.startswith("props="): props = p[6:].split(",")
                     if p.startswith("occ="): occ = int(p[4:])
-                cur = Item(head[1].strip(), parts[1], parts[2], props, occ)
+                    if p.startswith("subst="):
+                        for kv in p[6:].split(","):
+                            k_, v_ = kv.split(":", 1); subst.append((k_.strip(), v_.strip()))
+                cur = Item(head[1].strip(), parts[1], parts[2], props, occ, subst)
                 cur.span = [t.end, None]
             elif head[0] == "end":
                 if cur is None:
@@ -404,11 +425,11 @@ def assemble_fragment(text, fname, repo, stats, srcs):
     report = []
     for it in items:
         p = os.path.join(repo, it.relpath)
-        if it.relpath not in srcs:
+        if (it.relpath, it.subst) not in srcs:
             if not os.path.exists(p):
                 raise AssemblyError("lost anchor: file %s missing" % it.relpath)
-            srcs[it.relpath] = SourceFile(p)
-        sf = srcs[it.relpath]
+            srcs[(it.relpath, it.subst)] = SourceFile(p, it.subst)
+        sf = srcs[(it.relpath, it.subst)]
         stoks = sf.find(it.container, it.name, it.occurrence)
         if stoks is None:
             raise AssemblyError("lost anchor: %s | %s | %s not found in %s" % (it.relpath, it.container, it.name, it.relpath))
@@ -427,6 +448,20 @@ def assemble_fragment(text, fname, repo, stats, srcs):
         for op, i1, i2, j1, j2 in sm.get_opcodes():
             if op == "equal": continue
             new = " ".join(render_src(b[j1:j2]))
+            if op == "delete":
+                # a deletion is only determined up to rotation (`X Y X` minus `Y X` == minus `X Y`): prefer the placement
+                # that does not cut through a rewritten region
+                def partial(lo, hi):
+                    for reg in set(t.region for t in a[lo:hi] if t.region is not None):
+                        if sum(1 for t in a[lo:hi] if t.region == reg) != sum(1 for t in a if t.region == reg): return True
+                    return False
+                if partial(i1, i2):
+                    n_ = i2 - i1
+                    for k_ in range(1, n_ + 1):
+                        if i1 - k_ >= 0 and at[i1 - k_:i1] == at[i2 - k_:i2] and not partial(i1 - k_, i2 - k_):
+                            i1, i2 = i1 - k_, i2 - k_; break
+                        if i2 + k_ <= len(at) and at[i1:i1 + k_] == at[i2:i2 + k_] and not partial(i1 + k_, i2 + k_):
+                            i1, i2 = i1 + k_, i2 + k_; break
             if op in ("replace", "delete"):
                 # a rewritten (R) region may disappear as a whole; a partial overlap is a conflict
                 for reg in set(t.region for t in a[i1:i2] if t.region is not None):
@@ -441,7 +476,7 @@ def assemble_fragment(text, fname, repo, stats, srcs):
                 for t in a[i1:i2]:
                     if (t.start, t.end) in done: continue
                     done.add((t.start, t.end))
-                    edits.append((t.start, t.end, (" " + new + " ") if first else ""))
+                    edits.append((t.start, t.trail if (t.trail is not None and t.trail > t.end) else t.end, (" " + new + " ") if first else ""))
                     first = False
             else:  # insert
                 if i1 > 0:
@@ -485,7 +520,7 @@ def audit_fragment(gen_text, fname, repo, srcs):
     items = parse_fragment(gen_text, fname)
     n = 0
     for it in items:
-        sf = srcs[it.relpath]
+        sf = srcs[(it.relpath, it.subst)]
         stoks = sf.find(it.container, it.name, it.occurrence)
         a = [t.text for t in normalise(it.exec)]
         b = [t.text for t in normalise(stoks)]
